@@ -426,6 +426,10 @@ func (app *App) Prepare() error {
 		app.Context.rewardMaster.SetOptions(rewardsOpt)
 	}
 
+	if app.verifPrepare() {
+		return nil
+	}
+
 	nodecfg, err := consensus.ParseConfig(&app.Context.cfg)
 	if err != nil {
 		return errors.Wrap(err, "failed parse NodeConfig")
